@@ -342,6 +342,10 @@ struct Lower {
     return localNames[VD] = n;
   }
 
+  static bool staticDefaultCtor(const Expr* I) {
+    auto* CE = dyn_cast<CXXConstructExpr>(I->IgnoreImplicit());
+    return CE && CE->getConstructor()->isDefaultConstructor() && (CE->getConstructor()->isTrivial() || CE->getConstructor()->isConstexpr());
+  }
   std::string globalVar(const VarDecl* VD) {
     VD = VD->getCanonicalDecl();
     auto it = globalNames.find(VD);
@@ -367,6 +371,13 @@ struct Lower {
         // default constructor is constexpr): print the value the compiler computed
         init = " = " + apvalueInit(*AV, T);
       }
+      else if (VD->isStaticLocal() && !staticDefaultCtor(I) && !(T->isPointerType() || T->isArithmeticType())) {
+        // function-local static with a dynamic initialiser: zero-initialised global + guard; the initialiser runs at
+        // the declaration statement the first time control passes through it (varDecl); recorded in the census
+        dynamicInit.insert(VD);
+        globals += "_Bool " + n + "__guard;\n";
+        init = "";
+      }
       else if (auto* CE = dyn_cast<CXXConstructExpr>(I->IgnoreImplicit())) {
         if (!(CE->getConstructor()->isDefaultConstructor())) dieD("global with non-default constructor " + VD->getQualifiedNameAsString(), VD);
         // static storage: zero-initialised, then default-constructed; for the types libnop
@@ -385,9 +396,11 @@ struct Lower {
     globals += decl + init + ";\n";
     mapGlobals.push_back("{\"cxx\":\"" + jsonEsc(VD->getQualifiedNameAsString()) + "\",\"c\":\"" + n + "\",\"type\":\"" + jsonEsc(T.getAsString(PP)) +
                          "\",\"thread_local\":" + (tls ? "true" : "false") + ",\"static_local\":" + (VD->isStaticLocal() ? "true" : "false") +
-                         ",\"const\":" + (T.isConstQualified() ? "true" : "false") + ",\"loc\":\"" + jsonEsc(loc(VD->getLocation())) + "\"}");
+                         ",\"const\":" + (T.isConstQualified() ? "true" : "false") + ",\"dynamic_init\":" + (dynamicInit.count(VD) ? "true" : "false") +
+                         ",\"loc\":\"" + jsonEsc(loc(VD->getLocation())) + "\"}");
     return n;
   }
+  std::set<const VarDecl*> dynamicInit;
   std::string apvalueInit(const APValue& V, QualType T) {
     T = T.getCanonicalType();
     switch (V.getKind()) {
@@ -829,7 +842,19 @@ struct Lower {
       }
       if (q == "__builtin_expect") return ex(CE2->getArg(0), cx);
       if (q == "std::__is_constant_evaluated" || q == "__builtin_is_constant_evaluated") return "((_Bool)0)";
-      if (F->getBuiltinID() && !withBody(F) && q.rfind("__builtin", 0) == 0) die("builtin " + q, E);
+      if (F->getBuiltinID() && !withBody(F) && q.rfind("__builtin", 0) == 0) {
+        // a builtin the compiler itself folds to a constant (e.g. __builtin_nanf(""), __builtin_huge_val()): emit the constant
+        Expr::EvalResult R;
+        if (E->EvaluateAsRValue(R, C) && !R.HasSideEffects) {
+          if (R.Val.isInt()) return lit(R.Val.getInt(), E->getType());
+          if (R.Val.isFloat()) {
+            llvm::APInt bits = R.Val.getFloat().bitcastToAPInt();
+            if (bits.getBitWidth() == 32) return "vt_f32_from_bits(" + std::to_string(bits.getZExtValue()) + "u)";
+            if (bits.getBitWidth() == 64) return "vt_f64_from_bits(" + std::to_string(bits.getZExtValue()) + "ul)";
+          }
+        }
+        die("builtin " + q, E);
+      }
       need(F);
       return deref(F, fnName(F) + "(" + joinArgs("", F, CE2->arguments(), cx) + ")");
     }
@@ -1019,7 +1044,14 @@ struct Lower {
     QualType T = VD->getType();
     if (VD->isStaticLocal()) {
       // function-local static: lowered to a global (zero-initialised); recorded in the census
-      (void)globalVar(VD);
+      std::string g = globalVar(VD);
+      if (dynamicInit.count(VD->getCanonicalDecl())) {
+        Ctx cx;
+        std::string init = initInto(g, T.getUnqualifiedType(), VD->getInit(), cx);
+        std::string s = ind(d) + "if (!" + g + "__guard) {\n" + cx.pre + ind(d + 1) + init + ";\n";
+        for (auto it = cx.post.rbegin(); it != cx.post.rend(); ++it) s += ind(d + 1) + *it + "\n";
+        return s + ind(d + 1) + g + "__guard = 1;\n" + ind(d) + "}\n";
+      }
       return ind(d) + "/* static local " + VD->getNameAsString() + " lowered to global */\n";
     }
     std::string n = localName(VD);
